@@ -107,6 +107,7 @@ class PathMgr:
         self.pc_axiom: List[bool] = []
         self.alloc_cls: Dict[int, ClassInfo] = {}
         self.bounded: set = set()
+        self.hint_alt: Dict[int, List[ClassInfo]] = {}
         self.merged_dicts: Dict[int, Any] = {}
         self.canon_map: Dict[int, Any] = {}
         self.lazy_branching = False
@@ -481,6 +482,8 @@ class PathMgr:
                 prev = self.hint_cls.get(tid)
                 if prev is None or K.is_subclass(prev):
                     self.hint_cls[tid] = K
+                elif not prev.is_subclass(K):
+                    self.hint_alt.setdefault(tid, []).append(K)      # instance of two unrelated library classes
 
     def assume(self, cond) -> None:
         c = smt.simp(cond)
